@@ -420,4 +420,70 @@ theorem good_status (o : Except Exc Val) (h : Good o) : statusOf o = 200 ∨ (40
     obtain ⟨st, rfl, h1, h2⟩ := h e rfl
     right; exact ⟨h1, h2⟩
 
+/-! ### a failed `POST` leaves nothing behind -/
+
+/-- none of the three form mappings is in the environ -/
+def NoForm (c : Cache) : Prop := c.post = none ∧ c.forms = none ∧ c.files = none
+
+def Accessor.isForm : Accessor → Bool
+  | .post | .forms | .files => true
+  | _ => false
+
+theorem runPost_failed (cfg : Cfg) (jl : JLoads) (req : Req) (c : Cache) (e : Exc)
+    (h : (postOf cfg jl req).result = .error e) (hc : NoForm c) :
+    (runPost cfg jl req c).2 = .error e ∧ NoForm (runPost cfg jl req c).1 := by
+  unfold runPost
+  simp only [h]
+  exact ⟨trivial, hc⟩
+
+theorem access_failed (cfg : Cfg) (jl : JLoads) (req : Req) (c : Cache) (e : Exc)
+    (h : (postOf cfg jl req).result = .error e) (hc : NoForm c) (a : Accessor) :
+    NoForm (access cfg jl req c a).1 ∧ (a.isForm = true → (access cfg jl req c a).2 = .error e) := by
+  obtain ⟨h1, h2, h3⟩ := hc
+  have hr := runPost_failed cfg jl req c e h ⟨h1, h2, h3⟩
+  cases a <;> simp only [access, Accessor.isForm]
+  · split
+    · exact ⟨⟨h1, h2, h3⟩, by simp⟩
+    · exact ⟨⟨h1, h2, h3⟩, by simp⟩
+  · split
+    · exact ⟨⟨h1, h2, h3⟩, by simp⟩
+    · split
+      · exact ⟨⟨h1, h2, h3⟩, by simp⟩
+      · exact ⟨⟨h1, h2, h3⟩, by simp⟩
+  · rw [h1]
+    simp only
+    refine ⟨hr.2, fun _ => ?_⟩
+    rw [hr.1]; rfl
+  · rw [h2]
+    simp only
+    have he : ensurePost cfg jl req c = runPost cfg jl req c := by unfold ensurePost; rw [h1]
+    rw [he, readKey_cache]
+    refine ⟨hr.2, fun _ => ?_⟩
+    unfold readKey; rw [hr.1]
+  · rw [h3]
+    simp only
+    have he : ensurePost cfg jl req c = runPost cfg jl req c := by unfold ensurePost; rw [h1]
+    rw [he, readKey_cache]
+    refine ⟨hr.2, fun _ => ?_⟩
+    unfold readKey; rw [hr.1]
+
+theorem accessSeq_failed (cfg : Cfg) (jl : JLoads) (req : Req) (e : Exc)
+    (h : (postOf cfg jl req).result = .error e) (accs : List Accessor) :
+    ∀ (c : Cache), NoForm c → ∀ (i : Nat) (a : Accessor), accs[i]? = some a → a.isForm = true →
+      (accessSeq cfg jl req c accs)[i]? = some (.error e) := by
+  induction accs with
+  | nil => intro c _ i a hi; simp at hi
+  | cons x xs ih =>
+    intro c hc i a hi hf
+    have hx := access_failed cfg jl req c e h hc x
+    rw [accessSeq]
+    cases i with
+    | zero =>
+      simp only [List.getElem?_cons_zero, Option.some.injEq] at hi ⊢
+      subst hi
+      exact hx.2 hf
+    | succ i =>
+      simp only [List.getElem?_cons_succ] at hi ⊢
+      exact ih _ hx.1 i a hi hf
+
 end Ombott.BodyAccess
